@@ -62,6 +62,9 @@ def one_trace(rng, tid, prop):
                 rows.append(row)
                 coefs.append(cf)
         spec["rows"], spec["coefs"] = rows, coefs
+    if kind == "float" and rng.random() < 0.15:
+        # coefficients of tiny magnitude (2**-40): "small" is not "zero", a substituted polynomial keeps its terms
+        spec["coefs"] = [[c * 2.0 ** -40 for c in row] for row in spec["coefs"]]
     names = tuple(spec["names"])          # positional arguments follow the STORED order of the indeterminates
     p = rec.new(build_poly(spec))
     snames = ["q%d" % n for n in names]
